@@ -178,9 +178,7 @@ func vpH_C07_chunks() {
 		docs = append(docs, doc)
 	}
 	seg := vpBuild(docs, 1025)
-	if vpChoice("loaded", 2) == 1 {
-		seg = vpLoad(vpPersist(seg))
-	}
+	seg = vpLoadedVariant(seg)
 	exp := &vpExpect{dv: map[string]map[uint64][]string{"b": {}}}
 	for d, i := range carrier {
 		if i%2 == 1 {
